@@ -1,6 +1,7 @@
 import MageModel.Props.C02
 import MageModel.Deps.Exit
 import MageModel.Deps.Monitor
+import MageModel.Deps.Live
 /-!
 # C03 — a failed dependency fails every dependent, always
 Every program, every failure kind of every node, every schedule — requesters before, while and after the
@@ -24,6 +25,22 @@ theorem outcome_unique (p : Prog) (roots : List Nat) (sched : List Agent) (k : K
   have a := (reach_inv p roots sched).2.stopCell k r h
   have b := (reach_inv p roots sched).2.stopCell k r' h'
   rw [a] at b; cases b; rfl
+
+/-- **… (transitively)**: a call returns normally only if, one level down as well, no call made by a dependency it
+reached has panicked — a dependency whose own `Deps` call failed has failed itself (`PanStops`), and a returned call
+reached only dependencies that succeeded.  Apply repeatedly for the whole tree. -/
+theorem returns_only_if_all_ok_transitive (p : Prog) (roots : List Nat) (sched : List Agent)
+    (later earlier : List Event) (c : CallId) (reached : List Key)
+    (hlog : (reach p roots sched).log = later ++ Event.ret c reached :: earlier)
+    (k : Key) (hk : k ∈ reached) (c' : CallId) (hown : c'.owner = .key k) (reached' : List Key) (code : Int) (msgs : List String) :
+    Event.pan c' reached' code msgs ∉ (reach p roots sched).log := by
+  intro hpan
+  obtain ⟨f, hf⟩ := reach_panStops p roots sched c' reached' code msgs k hpan hown
+  have hok : Event.stop k none ∈ (reach p roots sched).log := by
+    rw [hlog]
+    exact List.mem_append_right _ (List.mem_cons_of_mem _ (returns_only_if_all_ok p roots sched later earlier c reached hlog k hk))
+  have := outcome_unique p roots sched k none (some f) hok hf
+  cases this
 
 /-- **A failed dependency fails every dependent**: if a reached dependency failed — whenever that happened
 relative to this call — the call does not return: its end event is a panic. -/
